@@ -12,5 +12,14 @@ func TestProp(t *testing.T) {
 	kit.Run(t, "C13", rule,
 		kit.Clause[meshCase]{Name: "C13/mesh3d/queries", Quick: 400, Thorough: 12000, Gen: genMeshCase, Check: checkMesh, Fresh: true},
 		kit.Clause[mesh2Case]{Name: "C13/mesh2d/queries", Quick: 400, Thorough: 12000, Gen: genMesh2Case, Check: checkMesh2, Fresh: true},
+		kit.Clause[derivedCase]{Name: "C13/derived3d/queries", Quick: 300, Thorough: 9000, Gen: genDerivedCase, Check: checkDerived, Fresh: true},
+		kit.Clause[derived2Case]{Name: "C13/derived2d/queries", Quick: 300, Thorough: 9000, Gen: genDerived2Case, Check: checkDerived2, Fresh: true},
+		kit.Clause[mesherCase]{Name: "C13/parallel/meshers", Quick: 150, Thorough: 4000, Gen: genMesherCase, Check: checkMesher, Fresh: true},
+		kit.Clause[rasterCase]{Name: "C13/parallel/rasterizer", Quick: 100, Thorough: 3000, Gen: genRasterCase, Check: checkRaster, Fresh: true},
+		kit.Clause[renderCase]{Name: "C13/parallel/renderers", Quick: 100, Thorough: 3000, Gen: genRenderCase, Check: checkRender, Fresh: true},
+		kit.Clause[kmeansCase]{Name: "C13/parallel/kmeans", Quick: 200, Thorough: 6000, Gen: genKMeansCase, Check: checkKMeans, Fresh: true},
+		kit.Clause[heightCase]{Name: "C13/parallel/heightmap", Quick: 100, Thorough: 3000, Gen: genHeightCase, Check: checkHeight, Fresh: true},
+		kit.Clause[cacheCase]{Name: "C13/parallel/caches", Quick: 200, Thorough: 6000, Gen: genCacheCase, Check: checkCache, Fresh: true},
+		kit.Clause[exportCase]{Name: "C13/parallel/export", Quick: 100, Thorough: 3000, Gen: genExportCase, Check: checkExport, Fresh: true},
 	)
 }
